@@ -89,6 +89,15 @@ func (s *statsManager) sessionTerminated(clientID string, reason SessionTerminat
 	atomic.AddUint64(&s.totalStats.ConnectionStats.InactiveCurrent, ^uint64(0))
 	s.clientMu.Lock()
 	defer s.clientMu.Unlock()
+	// the session's queue goes away with it: take its contents out of the global gauges
+	if sts := s.clientStats[clientID]; sts != nil {
+		if n := atomic.LoadUint64(&sts.MessageStats.QueuedCurrent); n != 0 {
+			atomic.AddUint64(&s.totalStats.MessageStats.QueuedCurrent, ^uint64(n-1))
+		}
+		if n := atomic.LoadUint64(&sts.MessageStats.InflightCurrent); n != 0 {
+			atomic.AddUint64(&s.totalStats.MessageStats.InflightCurrent, ^uint64(n-1))
+		}
+	}
 	delete(s.clientStats, clientID)
 }
 
@@ -367,7 +376,7 @@ func (s *statsManager) addInflight(clientID string, delta uint64) {
 	defer s.clientMu.Unlock()
 	sts := s.getClientStats(clientID)
 	atomic.AddUint64(&sts.MessageStats.InflightCurrent, delta)
-	atomic.AddUint64(&s.totalStats.MessageStats.InflightCurrent, 1)
+	atomic.AddUint64(&s.totalStats.MessageStats.InflightCurrent, delta)
 }
 func (s *statsManager) decInflight(clientID string, delta uint64) {
 	s.clientMu.Lock()
